@@ -103,6 +103,21 @@ static void check_seq(struct seq* s, const char* after, const char* who) {
   }
   if (steps > limit) { vh_violation(KEY("iteration-does-not-end"), "more than len+2 steps after %s", after); return; }
   if (steps != (size_t)s->n) { vh_violation(KEY("iteration-count"), "iteration yields %zu items, reference %d after %s", steps, s->n, after); return; }
+  /* ... and backwards, from the last element */
+  steps = 0;
+  it = iter_last(s->c);
+  while (it != Terminal && steps <= limit) {
+    vh_eval();
+    if (steps < (size_t)s->n && elem_value(s->et, it) != s->m[(size_t)s->n - 1 - steps]) {
+      vh_violation(KEY("backward-iteration-wrong-element"), "backward iteration item %zu = %" PRId64 " reference=%" PRId64 " (len %d) after %s", steps, elem_value(s->et, it), s->m[(size_t)s->n - 1 - steps], s->n, after);
+      return;
+    }
+    steps++;
+    it = iter_prev(s->c, it);
+  }
+  if (steps > limit) { vh_violation(KEY("backward-iteration-does-not-end"), "more than len+2 steps after %s", after); return; }
+  if (steps != (size_t)s->n) { vh_violation(KEY("backward-iteration-count"), "backward iteration yields %zu items, reference %d after %s", steps, s->n, after); return; }
+  if (s->n > 0) { vh_count("backward_walks_of_non_empty_sequences"); }
   /* mem: a present value and an absent one */
   if (s->n > 0) {
     int64_t pv = s->m[(s->n * 7 / 11) % s->n];
